@@ -29,7 +29,19 @@ MT_SAFE = {
     "open": "MT-Safe", "read": "MT-Safe", "close": "MT-Safe", "open64": "MT-Safe",
     "__errno_location": "returns the thread-local errno", "__assert_fail": "terminates the process",
     "abort": "terminates the process",
+    # not used today, classified so that a harmless new call is not reported (glibc manual, "MT-Safe")
+    "strcpy": "MT-Safe", "strncpy": "MT-Safe", "stpcpy": "MT-Safe", "stpncpy": "MT-Safe", "strcat": "MT-Safe", "strncat": "MT-Safe",
+    "strstr": "MT-Safe", "strpbrk": "MT-Safe", "memccpy": "MT-Safe", "mempcpy": "MT-Safe", "memrchr": "MT-Safe", "bzero": "MT-Safe",
+    "strtol": "MT-Safe locale", "strtoull": "MT-Safe locale", "strtoll": "MT-Safe locale", "strdup": "MT-Safe", "strndup": "MT-Safe",
+    "posix_memalign": "MT-Safe", "aligned_alloc": "MT-Safe", "mprotect": "MT-Safe (syscall)", "madvise": "MT-Safe (syscall)",
+    "getpagesize": "MT-Safe", "sysconf": "MT-Safe env", "clock_gettime": "MT-Safe", "time": "MT-Safe", "getenv": "MT-Safe env (library never calls setenv)",
+    "vsnprintf": "MT-Safe locale", "sprintf": "MT-Safe locale", "write": "MT-Safe", "fcntl": "MT-Safe", "openat": "MT-Safe",
 }
+# functions the glibc manual marks MT-Unsafe (static result buffers / hidden global state): a call from the re-entrant closure is a violation
+MT_UNSAFE = {"strtok", "strerror", "rand", "srand", "random", "srandom", "drand48", "lrand48", "mrand48", "srand48", "getpwnam", "getpwuid", "getpwent",
+             "gmtime", "localtime", "asctime", "ctime", "setlocale", "setenv", "putenv", "unsetenv", "tmpnam", "readdir", "ttyname", "getlogin",
+             "ecvt", "fcvt", "gcvt", "l64a", "a64l", "getspnam", "getgrnam", "getgrgid", "gethostbyname", "inet_ntoa", "crypt", "crypt_gensalt", "setkey", "encrypt", "basename", "dirname",
+             "atexit", "exit", "signal", "strsignal", "catgets", "getopt", "hcreate", "hsearch", "hdestroy"}
 INTRINSIC_OK = ("llvm.memcpy.", "llvm.memmove.", "llvm.memset.", "llvm.dbg.", "llvm.prefetch.",
                 "llvm.x86.sse2.", "llvm.lifetime.", "llvm.bswap.", "llvm.fshl.", "llvm.fshr.",
                 "llvm.umin.", "llvm.umax.", "llvm.smin.", "llvm.smax.", "llvm.assume",
@@ -158,9 +170,12 @@ def reentrant_rule(chk, m, flavour, roots, rule="R-REENTRANT"):
             key = "%s:%s->%s" % (flavour, n, c)
             if c in MT_SAFE or c.startswith(INTRINSIC_OK):
                 chk.ok(rule + "-EXT", key, sample={"caller": n, "callee": c, "why": MT_SAFE.get(c, "LLVM intrinsic, no memory besides arguments")})
-            else:
-                chk.fail(rule + "-EXT", key, "call to %s, which is not in the MT-Safe allow-list" % c,
+            elif c in MT_UNSAFE:
+                chk.fail(rule + "-EXT", key, "call to %s, which the glibc manual marks MT-Unsafe" % c,
                          "%s" % common.short(m.functions[n].file))
+            else:
+                # neither table knows it: reporting a violation could be a false alarm, passing could hide one
+                raise AnalysisBroken("%s calls the external function %s, which is neither in the MT-Safe nor in the MT-Unsafe table of vlib/props/c08.py: classify it" % (n, c))
     return R, defined, external, nsites
 
 
